@@ -66,6 +66,12 @@ CHECKS = {
             'ensure_*/prevent_*/find_* functions; oracle: ast.walk over CPython\'s tree with a table from the language reference',
             'Every program x query x threshold in the bounded space is evaluated; firing, counts, returned nodes and reported '
             'line are compared with a plain walk of CPython\'s syntax tree.', '2/C08'),
+    'C16': ('exhaustive table: 22 binary operators x ordered pairs of operand values from 13 value classes (int, float incl. nan, '
+            'bool, str, list, tuple, dict, set, None, complex, user classes with full/partial/NotImplemented dunders) x proxy '
+            'placement (left/right/both), plus 36 unary/builtin operations x every value, applied to real SandboxResult proxies; '
+            'oracle: CPython applying the same operator to the raw values',
+            'Every cell of the finite table is executed on the real proxy class and compared with the raw operation: same '
+            'success/failure, equal unwrapped result and type, nothing on stdout, never NotImplemented.', '2/C16'),
 }
 
 PENDING = ['C02', 'C03', 'C04', 'C05', 'C06', 'C07', 'C08', 'C09', 'C10', 'C11', 'C12', 'C13', 'C14', 'C15',
